@@ -166,9 +166,10 @@ def newSection (s : State) (align : Nat) (order : Int) : State × Err :=
   let a := if align = 0 then 1 else align
   ({ s with secs := s.secs ++ [{ buf := [], virtSize := 0#64, align := a, order := order, offset := BitVec.allOnes 64 }] }, .ok)
 
-/-- `BaseAssembler::section` -/
+/-- `BaseAssembler::section`.  Restriction of the op language (enforced by the harness too): user code never switches
+to the implicit `.addrtab` section - its buffer belongs to `relocate_to_base`. -/
 def switchSection (s : State) (id : Nat) : State × Err :=
-  if id < s.secs.length then ({ s with cur := id }, .ok) else (s, .invalidSection)
+  if id < s.secs.length ∧ s.addrTabSec ≠ some id then ({ s with cur := id }, .ok) else (s, .invalidSection)
 
 /-- `CodeHolder::new_fixup` (repaired, fixes/C03-2.patch): a fixup for an unbound label is pushed on the label's own
 list; a fixup for a label that is already bound (only reached when it is bound in *another* section) goes straight to
@@ -337,19 +338,23 @@ def flattenCheck (secs : List Section) : List Nat → BitVec 64 → Bool
       let (e, ovf) := addOverflow al sec.realSize
       if ovf then false else flattenCheck secs rest e
 
-/-- second loop of `CodeHolder::flatten`: assign offsets, extend the previous section's virtual size -/
+/-- second loop of `CodeHolder::flatten` (as repaired upstream for defect #17): assign offsets; only a non-empty section
+is aligned, and it extends the virtual size of the previous *non-empty* section over the alignment gap -/
 def flattenAssign (secs : List Section) : List Nat → BitVec 64 → Option Nat → List Section
   | [], _, _ => secs
   | i :: rest, off, prev =>
     match secs[i]? with
     | none => flattenAssign secs rest off prev
     | some sec =>
-      let off1 := if sec.realSize = 0#64 then off else alignUp off sec.align
-      let secs1 := modifySec secs i (fun s => { s with offset := off1 })
-      let secs2 := match prev with
-        | some p => modifySec secs1 p (fun s => { s with virtSize := off1 - s.offset })
-        | none => secs1
-      flattenAssign secs2 rest (off1 + sec.realSize) (some i)
+      if sec.realSize = 0#64 then
+        flattenAssign (modifySec secs i (fun s => { s with offset := off })) rest off prev
+      else
+        let off1 := alignUp off sec.align
+        let secs1 := match prev with
+          | some p => modifySec secs p (fun s => { s with virtSize := off1 - s.offset })
+          | none => secs
+        let secs2 := modifySec secs1 i (fun s => { s with offset := off1 })
+        flattenAssign secs2 rest (off1 + sec.realSize) (some i)
 
 /-- `CodeHolder::flatten` -/
 def flatten (s : State) : State × Err :=
